@@ -6,6 +6,28 @@ def P(module, theorems, campaigns, conformance=(), **kw):
     d.update(kw)
     return d
 
+def seg_group_oracle(rows, ck):
+    """C03: every segmentation of the same byte stream must give the identical implementation result."""
+    groups = {}
+    for c, r, d in rows:
+        ckv = ck.kv(c)
+        g = ckv.get("grp")
+        if g is None:
+            continue
+        g = ckv.get("camp", "") + ":" + g
+        rk = ck.kv(r)
+        groups.setdefault(g, []).append((rk.get("out", ""), rk.get("ev", ""), rk.get("end", "")))
+    bad = {g for g, v in groups.items() if len(set(v)) > 1}
+    out = []
+    for c, r, d in rows:
+        ckv = ck.kv(c)
+        g = ckv.get("camp", "") + ":" + ckv.get("grp", "-")
+        if g in bad and d.get("oracle", "ok") == "ok":
+            d = dict(d, oracle="rej", why="C03:result-depends-on-%s:group=%s" % ("segmentation" if ckv.get("camp") == "seg" else "bytes-no-handler-reads", g))
+        out.append((c, r, d))
+    return out
+
+
 PROPS = {
     "C02": P("Pw.Props.C02",
              ["Pw.Props.C02.C02_roundtrip", "Pw.Props.C02.C02_stream", "Pw.Props.C02.C02_model_output_shape",
@@ -70,4 +92,22 @@ PROPS = {
                         "15 type bytes x positions, injected protocol frames inside skipped bodies, thorough: the 16 MiB default boundary.",
              level_note="Trusted: Lean kernel; bufio/io.ReadFull semantics (flat-stream reading, see C03); harness.",
              technique="Lean 4 proof (arithmetic on the length guard, omega) + differential correspondence with expectation oracle"),
+    "C03": P("Pw.Props.C03",
+             ["Pw.Props.C03.readFull_flat", "Pw.Props.C03.C03_readFull_segmentation", "Pw.Props.C03.C03_segmentation",
+              "Pw.Props.C03.C03_exact_consumption", "Pw.Props.C03.C03_framing", "Pw.Props.C03.C03_accessors"],
+             [("seg", 2500, 100000), ("surplus", 1500, 60000), ("accessor", 4000, 300000)], ["Reader", "Accessors"],
+             group_oracle=seg_group_oracle,
+             design_ref="§7 C03",
+             level_text="Lean theorems: io.ReadFull over ANY segmentation of a stream returns the flat stream's prefix and leaves the flat "
+                        "remainder (readFull_flat, induction over raw reads that return arbitrary non-empty prefixes), so the connection "
+                        "model - a function of the flat bytes - is segmentation independent; every complete message is consumed in "
+                        "exactly its declared length whatever it contains (C03_exact_consumption, C03_framing); for every body and every "
+                        "list of accessor calls the reader's accessors equal an independent cursor (body,pos), never pass the end, "
+                        "and leave Msg = body.drop pos (C03_accessors). Tie: pinned read primitive of every read site (io.ReadFull / "
+                        "ReadByte), pinned accessor bodies; campaign runs each session under 5 segmentations (1-byte, dense, random, "
+                        "every 3rd byte, single) and requires identical real transcripts, plus direct calls of the real accessors.",
+             level_note="Trusted: Lean kernel; bufio.Reader is an instance of 'raw read returns a non-empty prefix'; harness transport "
+                        "delivers exactly the prescribed segments. Connection FATE (not output/events) after plaintext stuffed behind an "
+                        "accepted SSLRequest is segmentation dependent and excluded (see C11, DESIGN §7).",
+             technique="Lean 4 proof (induction over reads / message lists / accessor lists) + differential correspondence"),
 }
